@@ -123,7 +123,8 @@ func runC11(c *vh.Case, spec c11Spec) {
 	T := ms(spec.TimeoutMs)
 	start := time.Now()
 	now := func() time.Duration { return time.Since(start) }
-	var handlerRuns sync.Map // nonce -> started
+	var handlerRuns sync.Map   // nonce -> started
+	var tokenMismatch sync.Map // nonce -> nonce recorded in the token info the handler saw
 	server := mcp.NewServer(&mcp.Implementation{Name: "s", Version: "1"}, nil)
 	server.AddTool(&mcp.Tool{Name: "sleep", InputSchema: json.RawMessage(`{"type":"object"}`)}, func(ctx context.Context, req *mcp.CallToolRequest) (*mcp.CallToolResult, error) {
 		var a struct {
@@ -132,6 +133,12 @@ func runC11(c *vh.Case, spec c11Spec) {
 		}
 		json.Unmarshal(req.Params.Arguments, &a)
 		handlerRuns.Store(a.Nonce, true)
+		// the token info a handler sees is the one verified for the very request that carries its call
+		if ti := req.Extra.TokenInfo; ti != nil {
+			if got := fmt.Sprint(ti.Extra["nonce"]); got != fmt.Sprint(a.Nonce) {
+				tokenMismatch.Store(a.Nonce, got)
+			}
+		}
 		time.Sleep(ms(a.Ms))
 		return &mcp.CallToolResult{Content: []mcp.Content{&mcp.TextContent{Text: "ok"}}}, nil
 	})
@@ -167,8 +174,9 @@ func runC11(c *vh.Case, spec c11Spec) {
 		ho.EventStore = failingCloseStore{mcp.NewMemoryEventStore(nil)}
 	}
 	sh := mcp.NewStreamableHTTPHandler(func(*http.Request) *mcp.Server { return server }, ho)
-	verifier := func(_ context.Context, token string, _ *http.Request) (*auth.TokenInfo, error) {
-		return &auth.TokenInfo{UserID: token, Expiration: time.Now().Add(24 * 365 * time.Hour)}, nil
+	verifier := func(_ context.Context, token string, r *http.Request) (*auth.TokenInfo, error) {
+		// every verification yields its own token info, tagged with the request it was made for
+		return &auth.TokenInfo{UserID: token, Expiration: time.Now().Add(24 * 365 * time.Hour), Extra: map[string]any{"nonce": r.Header.Get("X-Verif-Nonce")}}, nil
 	}
 	authed := auth.RequireBearerToken(verifier, nil)(sh)
 	root := http.HandlerFunc(func(w http.ResponseWriter, r *http.Request) {
@@ -366,8 +374,13 @@ func runC11(c *vh.Case, spec c11Spec) {
 					m.inflight++
 					mmu.Unlock()
 				}
-				st, _, rbody, _ := ip.Do(ctx, "POST", "http://example.test/mcp", hdrFor(op.User, sid), []byte(body))
+				hd := hdrFor(op.User, sid)
+				hd["X-Verif-Nonce"] = fmt.Sprint(n)
+				st, _, rbody, _ := ip.Do(ctx, "POST", "http://example.test/mcp", hd, []byte(body))
 				endT := now()
+				if got, bad2 := tokenMismatch.Load(n); bad2 {
+					bad("handler-saw-another-requests-token", "op %d %+v: the tool handler of request %d saw the token info verified for request %q", i, op, n, got)
+				}
 				if op.Kind == "post-late" {
 					time.Sleep(2 * time.Millisecond) // let the late notification happen before the next operation
 				}
